@@ -82,7 +82,20 @@ pub trait PostConversionLinter {
         Ok(())
     }
 
-    fn visit_dim(&mut self, _dim_list: &DimList) -> Result<(), LintErrorPos> {
+    fn visit_dim(&mut self, dim_list: &DimList) -> Result<(), LintErrorPos> {
+        // the array bounds are expressions too
+        for dim_var_pos in &dim_list.variables {
+            let mut dim_type = dim_var_pos.element.var_type();
+            while let DimType::Array(array_dimensions, element_type) = dim_type {
+                for ArrayDimension { lbound, ubound } in array_dimensions {
+                    if let Some(lbound) = lbound {
+                        self.visit_expression(lbound)?;
+                    }
+                    self.visit_expression(ubound)?;
+                }
+                dim_type = element_type;
+            }
+        }
         Ok(())
     }
 
@@ -155,9 +168,11 @@ pub trait PostConversionLinter {
     fn visit_assignment(
         &mut self,
         assignment: &Assignment,
-        _name_pos: Position,
+        name_pos: Position,
     ) -> Result<(), LintErrorPos> {
-        let (_, v) = assignment.into();
+        let (name, v) = assignment.into();
+        // the left side might contain expressions too, e.g. A(I + 1) = 42
+        self.visit_child_expressions(name, name_pos)?;
         self.visit_expression(v)
     }
 
@@ -231,6 +246,28 @@ pub trait PostConversionLinter {
 
     fn visit_expression(&mut self, _e: &ExpressionPos) -> Result<(), LintErrorPos> {
         Ok(())
+    }
+
+    /// Visits the expressions that are nested directly inside the given expression.
+    fn visit_child_expressions(
+        &mut self,
+        expr: &Expression,
+        pos: Position,
+    ) -> Result<(), LintErrorPos> {
+        match expr {
+            Expression::FunctionCall(_, args)
+            | Expression::ArrayElement(_, args, _)
+            | Expression::BuiltInFunctionCall(_, args) => self.visit_expressions(args),
+            Expression::BinaryExpression(_, left, right, _) => {
+                self.visit_expression(left)?;
+                self.visit_expression(right)
+            }
+            Expression::UnaryExpression(_, child) | Expression::Parenthesis(child) => {
+                self.visit_expression(child)
+            }
+            Expression::Property(left, _, _) => self.visit_child_expressions(left, pos),
+            _ => Ok(()),
+        }
     }
 
     fn visit_expressions(&mut self, args: &Expressions) -> Result<(), LintErrorPos> {
